@@ -7,6 +7,7 @@ import (
 	"encoding/json"
 	"flag"
 	"fmt"
+	"go/types"
 	"os"
 	"path/filepath"
 	"sort"
@@ -401,7 +402,110 @@ func truncate(s string, n int) string {
 	return s
 }
 
-func (cr *checkRun) extraChecks() {}
+func (cr *checkRun) extraChecks() {
+	if cr.prop == "C20" {
+		cr.formatStructural()
+	}
+}
+
+// formatStructural: the structural side conditions that connect the contracts of the formatWriter
+// functions to the property (C20): every write through the caller's writer happens inside the
+// functions under contract, the sticky error is assigned only by (*formatWriter).s, and Format
+// returns that field.
+func (cr *checkRun) formatStructural() {
+	allowed := map[string]bool{"format.(*formatWriter).s": true, "format.writeStrings": true, "format.writeTrimmedIndent": true, "format.fallbackStringWriter.WriteString": true}
+	type finding struct{ name, desc, pos string }
+	var bad []finding
+	n := 0
+	for _, fn := range cr.p.allFuncs {
+		key := cr.p.funcKeys[fn]
+		if !strings.HasPrefix(key, "format.") {
+			continue
+		}
+		for _, b := range fn.Blocks {
+			for _, in := range b.Instrs {
+				if c, ok := in.(ssa.CallInstruction); ok && c.Common().IsInvoke() {
+					m := normMethodName(c.Common().Method.FullName())
+					if m == "(io.Writer).Write" || m == "(io.StringWriter).WriteString" {
+						n++
+						if !allowed[key] {
+							bad = append(bad, finding{"format/struct:writes-only-under-contract@" + key, "a write through the caller's writer outside the functions under contract", cr.p.posStr(in.Pos())})
+						}
+					}
+				}
+				if st, ok := in.(*ssa.Store); ok {
+					if fa, ok := st.Addr.(*ssa.FieldAddr); ok && namedStructPtr(fa.X.Type(), "formatWriter") {
+						stt := fa.X.Type().Underlying().(*types.Pointer).Elem().Underlying().(*types.Struct)
+						if stt.Field(fa.Field).Name() == "err" {
+							n++
+							if _, fresh := fa.X.(*ssa.Alloc); !fresh && key != "format.(*formatWriter).s" {
+								bad = append(bad, finding{"format/struct:err-assigned-only-in-s@" + key, "the sticky error field is assigned outside (*formatWriter).s", cr.p.posStr(in.Pos())})
+							}
+						}
+					}
+				}
+			}
+		}
+	}
+	// Format returns fw.err
+	if fn := cr.p.funcs["format.Format"]; fn != nil {
+		ok := false
+		for _, b := range fn.Blocks {
+			for _, in := range b.Instrs {
+				if r, isRet := in.(*ssa.Return); isRet && len(r.Results) == 1 {
+					v := r.Results[0]
+					for depth := 0; depth < 4; depth++ {
+						u, isU := v.(*ssa.UnOp)
+						if !isU {
+							break
+						}
+						if fa, isF := u.X.(*ssa.FieldAddr); isF && namedStructPtr(fa.X.Type(), "formatWriter") {
+							stt := fa.X.Type().Underlying().(*types.Pointer).Elem().Underlying().(*types.Struct)
+							ok = stt.Field(fa.Field).Name() == "err"
+							break
+						}
+						a, isA := u.X.(*ssa.Alloc)
+						if !isA {
+							break
+						}
+						var stored ssa.Value
+						cnt := 0
+						for _, ref := range *a.Referrers() {
+							if s, isS := ref.(*ssa.Store); isS && s.Addr == a {
+								stored, cnt = s.Val, cnt+1
+							}
+						}
+						if cnt != 1 {
+							break
+						}
+						v = stored
+					}
+				}
+			}
+		}
+		n++
+		if !ok {
+			bad = append(bad, finding{"format/struct:Format-returns-sticky-error", "Format does not return the formatWriter's sticky error", ""})
+		}
+	}
+	cr.claimed += 3
+	seen := map[string]bool{}
+	for _, f := range bad {
+		if seen[f.name] {
+			continue
+		}
+		seen[f.name] = true
+		cr.failObligation(f.name, f.desc+" ["+f.pos+"]", nil, nil, nil, Result{Status: "structural-violation", Solver: "structural scan", Output: f.desc + " at " + f.pos})
+	}
+	cls := map[string]bool{}
+	for k := range seen {
+		cls[strings.SplitN(k, "@", 2)[0]] = true
+	}
+	cr.discharge += 3 - len(cls)
+	cr.extra["format_structural"] = map[string]interface{}{"sites_examined": n, "violations": len(seen),
+		"rules": []string{"every (io.Writer).Write / (io.StringWriter).WriteString call of package format is inside (*formatWriter).s, writeStrings, writeTrimmedIndent or fallbackStringWriter.WriteString",
+			"formatWriter.err is assigned only in (*formatWriter).s (and at construction)", "Format returns fw.err"}}
+}
 
 // runFrame: the structural frame / determinism obligations of the property (DESIGN 2.6).
 func (cr *checkRun) runFrame() {
